@@ -55,6 +55,7 @@ fn parse_spec(line: &str) -> Option<(String, Vec<u8>, Vec<TextEdit>)> {
 }
 
 fn main() {
+    limit_resources();
     let args: Vec<String> = std::env::args().collect();
     let out_path = args.get(1).expect("usage: c10 <ops-file> [--spec file] [lang...]").clone();
     let mut out = std::io::BufWriter::new(std::fs::File::create(&out_path).unwrap());
